@@ -249,6 +249,59 @@ def apply_fault(sess, a):
         avs = {'1': ['var', 'av1'], '2': ['var', 'av2'], '4': ['var', 'av3']}
         ok, engine, e = expect_error(sess, f'availability keys inconsistent with the utilities, via {entry}',
                                      lambda: run(plant(base, path, ['loglogit', utils, avs, ['var', 'ch']])), survey=survey)
+    elif kind == 'nan_inplace':
+        # a table that was valid when the Database was created, then a NaN written into it in place
+        t = sess.tables[dbi].copy()
+        d_ = db.Database('inplace', t)
+        col_ = t.columns[salt % len(t.columns)]
+        d_.data.loc[d_.data.index[salt % len(t)], col_] = float('nan')
+        entry = 'biogeme'    # the table is audited again when a BIOGEME object is built on it
+        ok, engine, e = expect_error(sess, f'NaN written in place into column {col_} of an audited table, via BIOGEME',
+                                     lambda: run(base, data=d_))
+    elif kind == 'hess_without_grad_kept':
+        def f():
+            e_ = sess.expr(fi)
+            e_.prepare(sess.dbs[dbi], 10)
+            return e_.get_value_and_derivatives(database=sess.dbs[dbi], aggregation=True, prepare_ids=False,
+                                                gradient=False, hessian=True, bhhh=False).function
+        ok, engine, e = expect_error(sess, f'second derivatives without first ones for formula {fi} (numbering kept)', f)
+        sess.biogemes = []     # prepare() renumbered the shared nodes
+    elif kind == 'pandas_dropped_column':
+        t = sess.tables[dbi].copy()
+        d_ = db.Database('dropped', t)
+        d_.data.drop(columns=['c1'], inplace=True)
+        ok, engine, e = expect_error(sess, f'column c1 dropped with pandas after the Database was created, used in {where}',
+                                     lambda: run(plant(base, path, ['var', 'c1']), data=d_))
+    elif kind == 'pandas_added_column':
+        # VALID: a column added with pandas after the Database was created is a column like any other
+        t = sess.tables[dbi].copy()
+        d_ = db.Database('added', t)
+        d_.data['znew'] = d_.data['c0'] * 2.0 + 1.0
+        ast2 = ['+', base, ['var', 'znew']]
+        betas_ = dict(eb.BETA_VALUES)
+        rows_ = eb.rows_of(d_.data)
+        try:
+            want_ = eb.ref_rows(ast2, sess.pool, rows_, betas_)
+        except (ref.RefError, OverflowError, ZeroDivisionError, ValueError):
+            ctx.log('FAULT', kind, 'skip-domain')
+            return
+        fb = FaultBuilder(eb.beta_specs(), pool=sess.pool, share_elementary=False)
+        e_ = fb.build(ast2)
+        try:
+            got_ = e_.get_value_c(database=d_, aggregation=False, prepare_ids=True)
+            b_ = bio.BIOGEME(d_, {'log_like': fb.build(ast2)}, parameters=params())
+            ll_ = float(b_.calculate_likelihood([betas_[n_] for n_ in b_.free_beta_names], scaled=False))
+        except Exception as ex_:
+            from ..core import _classify_exception
+            if _classify_exception(ex_)[0] == 'harness':
+                raise
+            ctx.fail('I12.reject', f'a valid formula using a column added to the table with pandas is refused: '
+                                   f'{type(ex_).__name__}: {str(ex_)[:200]}')
+        sess.cmp('formula using a column added with pandas', list(got_), want_, oracle='I12.reject')
+        sess.cmp('likelihood using a column added with pandas', [ll_], [sum(want_)], oracle='I12.reject')
+        ctx.probe('valid specification on a table changed with pandas')
+        ctx.log('FAULT', kind, 'accepted-as-it-must')
+        return
     elif kind in ('nan_data', 'text_data', 'empty_data'):
         t = sess.tables[dbi].copy()
         if kind == 'nan_data':
